@@ -23,6 +23,8 @@ FF = 'concepts/formats/fimi.py'
 AI = 'concepts/algorithms/__init__.py'
 CM = 'concepts/_common.py'
 TL = 'concepts/tools.py'
+_BSP = 'ABS:/venv/lib/python3.12/site-packages/bitsets/'
+BI, BB, BM, BS = _BSP + 'integers.py', _BSP + 'bases.py', _BSP + 'meta.py', _BSP + 'series.py'
 DF = 'concepts/definitions.py'
 
 MUTANTS = [
@@ -107,6 +109,27 @@ MUTANTS = [
     (CX, "        return tools.crc32_hex(self.tostring().encode(encoding))", "        return tools.crc32_hex(self.tostring(frmat='csv').encode(encoding))", ['contexts.crc32'], 'breaks'),
     (CM, "        return cls(len(objects), len(properties))", "        return cls(len(properties), len(objects))", ['_common.Shape._from_pair'], 'breaks'),
     (CM, "        return self.objects * self.properties", "        return self.objects + self.properties", ['_common.Shape.size'], 'breaks'),
+    # the bitsets package (contracts/bitsets_lib.py)
+    (BI, "        if n & 1:\n            yield i\n        i += 1", "        if n & 1:\n            yield i + 1\n        i += 1", ['bitsets.integers.indexes'], 'breaks'),
+    (BI, "        i += 1\n        n >>= 1", "        i += 1\n        n >>= 2", ['bitsets.integers.indexes'], 'breaks'),
+    (BI, "        if not n & 1:\n            result |= r", "        if n & 1:\n            result |= r", ['bitsets.integers.reinverted'], 'breaks'),
+    (BI, "    r = 1 << (r - 1)", "    r = 1 << r", ['bitsets.integers.reinverted'], 'breaks'),
+    (BI, "        result |= (r << 1) - 1", "        result |= r - 1", ['bitsets.integers.reinverted'], 'breaks'),
+    (BB, "        return tuple(not not self & a for a in self._atoms)", "        return tuple(not self & a for a in self._atoms)", ['bitsets.MemberBits.bools'], 'breaks'),
+    (BB, "        return filter(self.__and__, atoms)", "        return filterfalse(self.__and__, atoms)", ['bitsets.MemberBits.atoms'], 'breaks'),
+    (BB, "        atoms = reversed(self._atoms) if reverse else self._atoms\n        return filterfalse", "        atoms = self._atoms if reverse else reversed(self._atoms)\n        return filterfalse", ['bitsets.MemberBits.inatoms'], 'breaks'),
+    (BB, "            return frozenset(map(self._members.__getitem__, self._indexes()))", "            return tuple(map(self._members.__getitem__, self._indexes()))", ['bitsets.MemberBits.members'], 'breaks'),
+    (BM, "        inters = self.supremum.copy()", "        inters = self.infimum.copy()", ['bitsets.Meta.reduce_and'], 'breaks'),
+    (BM, "            union |= b", "            union &= b", ['bitsets.Meta.reduce_or'], 'breaks'),
+    (BM, "        self._atoms = tuple(self.fromint(1 << i) for i in range(self._len))", "        self._atoms = tuple(self.fromint(1 << i) for i in range(1, self._len + 1))", ['bitsets.Meta.__init__'], 'breaks'),
+    (BM, "        self.supremum = self.fromint((1 << self._len) - 1)", "        self.supremum = self.fromint(1 << self._len)", ['bitsets.Meta.__init__'], 'breaks'),
+    (BM, "        self._map = dict(zip(self._members, self._atoms))", "        self._map = dict(zip(self._atoms, self._members))", ['bitsets.Meta.__init__'], 'breaks'),
+    (BS, "        return [b.bools() for b in self]", "        return [b.bools() for b in self[1:]]", ['bitsets.Series.bools'], 'breaks'),
+    (BS, "        return cls.frombitsets(map(cls.BitSet.frombools, bools))", "        return cls.frombitsets(map(cls.BitSet.frommembers, bools))", ['bitsets.Series.frombools'], 'breaks'),
+    (BB, "        return cls.fromint(sum(map(cls._map.__getitem__, set(members))))", "        return cls.fromint(sum(map(cls._map.__getitem__, members)))", ['bitsets.MemberBits.frommembers'], 'breaks'),
+    (BB, "        return cls.fromint(sum(compress(cls._atoms, bools)))", "        return cls.fromint(sum(cls._atoms))", ['bitsets.MemberBits.frombools'], 'breaks'),
+    (BB, "        return bin(self).count('1'), self._reinverted(self._len)", "        return bin(self).count('1'), self._int", ['bitsets.MemberBits.shortlex'], 'breaks'),
+    (BB, "        return -bin(self).count('1'), self._reinverted(self._len)", "        return bin(self).count('1'), self._reinverted(self._len)", ['bitsets.MemberBits.longlex'], 'breaks'),
     # completeness / exactly-once of FCbO (units fcbo.*.complete)
     (FC, 'stack.append((concept, j + 1, next_property_sets))', 'stack.append((concept, j + 2, next_property_sets))', ['fcbo.fast_generate_from.complete'], 'breaks'),
     (FC, '                if j_lower & intent == j_lower:', '                if True:', ['fcbo.fast_generate_from.complete'], 'breaks'),
@@ -282,34 +305,48 @@ MUTANTS = [
 ]
 
 
-def run(only_units=None, verbose=True):
+def _one(job):
+    """worker: one mutant (source override in this process only), its units serially"""
+    relpath, new_src, units = job
+    lost = 0
+    for r in pyrun.run_units(units, overrides={relpath: new_src}, procs=1):
+        lost += len([v for v in r['vcs'] if v['status'] != 'discharged']) + len(r['errors'])
+    extract.OVERRIDES.clear()
+    return lost
+
+
+def run(only_units=None, verbose=True, procs=None):
+    import multiprocessing as mp
     import contracts.registry as registry
     registry.load_all()
     bad = []
-    n = 0
+    jobs, meta = [], []
     for relpath, old, new, units, expect in MUTANTS:
         units = [u for u in units if u in registry.UNITS and (only_units is None or u in only_units)]
         if not units:
             continue
-        with open(os.path.join(extract.REPO, relpath), encoding='utf-8') as f:
+        with open(extract._abspath(relpath), encoding='utf-8') as f:
             src = f.read()
         if src.count(old) < 1:
             bad.append(('mutant does not apply (source changed)', relpath, old))
             if verbose:
                 print('DOES NOT APPLY', relpath, repr(old[:60]))
             continue
-        n += 1
-        ov = {relpath: src.replace(old, new, 1)}
-        lost = 0
-        for r in pyrun.run_units(units, overrides=ov, procs=1):
-            lost += len([v for v in r['vcs'] if v['status'] != 'discharged']) + len(r['errors'])
-        extract.OVERRIDES.clear()
+        jobs.append((relpath, src.replace(old, new, 1), units))
+        meta.append((relpath, old, new, expect))
+    procs = procs or min(len(jobs), os.cpu_count() or 4) or 1
+    if procs > 1 and len(jobs) > 1:
+        with mp.get_context('fork').Pool(procs) as pool:
+            losts = pool.map(_one, jobs, chunksize=1)
+    else:
+        losts = [_one(j) for j in jobs]
+    for (relpath, old, new, expect), lost in zip(meta, losts):
         ok = (lost > 0) == (expect == 'breaks')
         if verbose:
             print('%-10s lost=%-3d %s  %s: %r -> %r' % ('ok' if ok else 'WRONG', lost, expect, relpath, old[:40], new[:40]))
         if not ok:
             bad.append((expect, relpath, old, new))
-    return n, bad
+    return len(jobs), bad
 
 
 if __name__ == '__main__':
